@@ -134,7 +134,59 @@ pub fn case(rng: &mut Rng, out: &mut Out) {
     out.count(if as_regex { "as_slash_regex" } else { "as_lark_terminal" }, 1);
 }
 
+/// %regex substring: every source over {a,b} of the given lengths, judged on every word over
+/// {a,b} up to length 5 and on every true substring (the suffix automaton only goes wrong when a
+/// state is cloned several suffix links deep, which needs sources of length >= 8)
+fn substr_sweep(out: &mut Out, lens: &[usize]) {
+    let (ws, eos) = single_byte_vocab();
+    let env = make_env(&ws, eos, false);
+    let _ = eos;
+    let mut words: Vec<Vec<u8>> = vec![vec![]];
+    for l in 1..=5usize {
+        for k in 0..(1u32 << l) {
+            words.push((0..l).map(|i| if k >> i & 1 == 1 { b'b' } else { b'a' }).collect());
+        }
+    }
+    for &n in lens {
+        for k in 0..(1u32 << n) {
+            let src: String = (0..n).map(|i| if k >> i & 1 == 1 { 'b' } else { 'a' }).collect();
+            let rx = Rx::Substr(vec![src.clone()], 1);
+            let mut t = String::new();
+            rx.to_lark_term(&mut t);
+            let lark = format!("start: T\nT: {t}\n");
+            let Ok(m) = new_matcher(&env, &lark, &[]) else {
+                out.count("substring_rejected", 1);
+                continue;
+            };
+            let mut strings = words.clone();
+            let sb = src.as_bytes();
+            for i in 0..sb.len() {
+                for j in (i + 6)..=sb.len() {
+                    strings.push(sb[i..j].to_vec());
+                }
+            }
+            strings.sort();
+            strings.dedup();
+            let mut verdicts = vec![];
+            for s in &strings {
+                let (len, acc) = feed(&m, s);
+                let is_sub = s.is_empty() || sb.windows(s.len()).any(|w| w == &s[..]);
+                if acc != is_sub {
+                    out.violation(
+                        &format!("substring_chars {:?}: word {:?} accepted = {}, is a substring = {}", src, String::from_utf8_lossy(s), acc, is_sub),
+                        lark.clone(),
+                    );
+                }
+                verdicts.push(list(vec![int(len), boolean(acc)]));
+            }
+            out.case(tagged("rxcheck", vec![rx.to_sx(), list(strings.iter().map(|s| hex(s)).collect())]), tagged("ok", verdicts), true);
+            out.count("substring_sources", 1);
+        }
+    }
+}
+
 pub fn run(rng: &mut Rng, out: &mut Out, tier: &str) {
+    substr_sweep(out, if tier == "thorough" { &[8, 9, 10, 11] } else { &[8, 9] });
     let n = if tier == "thorough" { 10000 } else { 1000 };
     for i in 0..n {
         let mut r = rng.fork(i as u64);
